@@ -302,6 +302,9 @@ func valKind(v ssa.Value) string {
 							stores++
 						}
 					}
+				case *ssa.UnOp, *ssa.DebugRef:
+				default:
+					stores++ // the address escapes (passed to a call, boxed, …): it may be written
 				}
 			}
 			if stores == 0 {
@@ -322,27 +325,56 @@ func valKind(v ssa.Value) string {
 	return "value"
 }
 
-// mustPassEdge: every path from the function entry to `target` takes one of
-// the CFG edges for which okEdge returns true.
-func mustPassEdge(f *ssa.Function, target *ssa.BasicBlock, okEdge func(from, to *ssa.BasicBlock) bool) bool {
-	seen := map[*ssa.BasicBlock]bool{}
-	var work []*ssa.BasicBlock
-	work = append(work, f.Blocks[0])
+// mustPassEdge: every path from the function entry to `target` takes a branch
+// whose (condition, outcome) satisfies okCond. Conditions that are phis of
+// booleans (the SSA form of && / || in switch cases) are resolved per
+// predecessor, and branches whose resolved condition is a constant are pruned.
+func mustPassEdge(f *ssa.Function, target *ssa.BasicBlock, okCond func(cond ssa.Value, truth bool) bool) bool {
+	type node struct {
+		b    *ssa.BasicBlock
+		pred *ssa.BasicBlock
+	}
+	seen := map[node]bool{}
+	work := []node{{f.Blocks[0], nil}}
 	for len(work) > 0 {
-		b := work[len(work)-1]
+		n := work[len(work)-1]
 		work = work[:len(work)-1]
-		if seen[b] {
+		if seen[n] {
 			continue
 		}
-		seen[b] = true
-		if b == target {
+		seen[n] = true
+		if n.b == target {
 			return false
 		}
-		for _, s := range b.Succs {
-			if okEdge(b, s) {
+		last := n.b.Instrs[len(n.b.Instrs)-1]
+		ifi, isIf := last.(*ssa.If)
+		if !isIf || n.b.Succs[0] == n.b.Succs[1] {
+			for _, s := range n.b.Succs {
+				work = append(work, node{s, n.b})
+			}
+			continue
+		}
+		cond := ifi.Cond
+		if phi, ok := cond.(*ssa.Phi); ok && phi.Block() == n.b && n.pred != nil {
+			for i, p := range n.b.Preds {
+				if p == n.pred {
+					cond = phi.Edges[i]
+				}
+			}
+		}
+		for i, s := range n.b.Succs {
+			truth := i == 0
+			if cb, isConst := constBool(cond); isConst {
+				if cb != truth {
+					continue // infeasible
+				}
+				work = append(work, node{s, n.b})
 				continue
 			}
-			work = append(work, s)
+			if okCond(cond, truth) {
+				continue
+			}
+			work = append(work, node{s, n.b})
 		}
 	}
 	return true
